@@ -15,6 +15,10 @@ var vC10StoreQueries = []string{
 	"isEmpty(from reports where s = \"x\")", "true sort by s skip 2", "s icontains \"x\" sort by s",
 	"true sort by i", "true sort by s desc, i", "true sort by boss", "true sort by tags.k",
 	"true sort by s limit 0", "true sort by i desc skip 1 limit 0", "true limit 0", "true sort by s skip -1 limit 1",
+	// a set symbol reached through a foreign key (composite set symbol), as a
+	// scalar inside a sub-query and under a null test of its count
+	"count(from reports where boss.roles = \"a\") > 0", "isEmpty(from reports where boss.roles != null)",
+	"count(boss.roles) = null", "count(boss.roles) != null", "count(reports.roles) = null", "anyOf(boss.roles) = \"a\"",
 	"count(from reports where true) = 0", "isEmpty(from roles where true)", "not isEmpty(from reports where boss = null)",
 }
 
